@@ -537,3 +537,179 @@ pub proof fn lemma_tm_step(d: CompiledDfa, tm0: TMapV, tm1: TMapV, full: int, j:
         }
     }
 }
+
+// ---------------------------------------------------------------- create_from_partition
+/// derived Clone of StateData / Clone of the Copy pair (bool, TerminalID): field-wise (rule E4)
+pub axiom fn axiom_cloned_state(a: StateData, b: StateData)
+    ensures vstd::pervasive::cloned(a, b) ==> a.transitions@ == b.transitions@;
+pub axiom fn axiom_cloned_end(a: (bool, TerminalID), b: (bool, TerminalID))
+    ensures vstd::pervasive::cloned(a, b) ==> a == b;
+/// the comparator of the sort in create_from_partition: the group holding state 0 before every other group
+pub open spec fn start_cmp(a: BTreeSet<StateID>, b: BTreeSet<StateID>) -> core::cmp::Ordering {
+    if a@.contains(StateID(0)) { core::cmp::Ordering::Less } else if b@.contains(StateID(0)) { core::cmp::Ordering::Greater } else { core::cmp::Ordering::Equal }
+}
+pub open spec fn models_cmp2<T, F: FnMut(&T, &T) -> core::cmp::Ordering>(f: F, g: spec_fn(T, T) -> core::cmp::Ordering) -> bool {
+    forall|x: &T, y: &T, o: core::cmp::Ordering| call_ensures(f, (x, y), o) ==> o == g(*x, *y)
+}
+// TRUSTED std contract: sort_by permutes and leaves no later element that compares Less than an earlier one
+pub assume_specification<T, F: FnMut(&T, &T) -> core::cmp::Ordering>[ <[T]>::sort_by ](s: &mut [T], f: F)
+    requires forall|x: &T, y: &T| call_requires(f, (x, y)),
+    ensures
+        final(s)@.len() == old(s)@.len(),
+        forall|x: T| #![trigger final(s)@.contains(x)] #![trigger old(s)@.contains(x)] final(s)@.contains(x) <==> old(s)@.contains(x),
+        old(s)@.no_duplicates() ==> final(s)@.no_duplicates(),
+        forall|g: spec_fn(T, T) -> core::cmp::Ordering| #[trigger] models_cmp2(f, g) ==>
+            forall|i: int, j: int| 0 <= i < j < final(s)@.len() ==> g(#[trigger] final(s)@[j], #[trigger] final(s)@[i]) != core::cmp::Ordering::Less;
+pub assume_specification<T: Clone>[ <[T]>::to_vec ](s: &[T]) -> (r: Vec<T>)
+    ensures r@ == s@;   // Clone of BTreeSet<StateID> yields an equal set (std)
+// TRUSTED std contract: the least element (its value is only traced)
+pub assume_specification<T: Ord, A: Allocator + Clone>[ BTreeSet::<T, A>::first ](s: &BTreeSet<T, A>) -> (r: Option<&T>)
+    ensures r is Some <==> exists|y: T| #[trigger] s@.contains(y), r matches Some(x) ==> s@.contains(*x);
+
+/// a reordering of the groups is as good a partition
+pub proof fn lemma_perm_part(p1: Seq<BTreeSet<StateID>>, p2: Seq<BTreeSet<StateID>>, n: int)
+    requires
+        part_ok(pv(p1), n), all_nonempty(pv(p1)), p2.len() == p1.len(), p2.no_duplicates(),
+        forall|x: BTreeSet<StateID>| #![trigger p2.contains(x)] #![trigger p1.contains(x)] p2.contains(x) <==> p1.contains(x),
+    ensures part_ok(pv(p2), n), all_nonempty(pv(p2))
+{
+    let v1 = pv(p1);
+    let v2 = pv(p2);
+    assert forall|s: int| 0 <= s < n implies #[trigger] has_grp(v2, s) by {
+        assert(has_grp(v1, s));
+        let g = choose|g: int| #[trigger] in_grp(v1, g, s);
+        assert(p1.contains(p1[g]));
+        assert(p2.contains(p1[g]));
+        let h = choose|h: int| 0 <= h < p2.len() && p2[h] == p1[g];
+        assert(in_grp(v2, h, s));
+    }
+    assert forall|g: int, h: int, s: int| #[trigger] in_grp(v2, g, s) && #[trigger] in_grp(v2, h, s) implies g == h by {
+        assert(p2.contains(p2[g]) && p2.contains(p2[h]));
+        assert(p1.contains(p2[g]) && p1.contains(p2[h]));
+        let g1 = choose|g1: int| 0 <= g1 < p1.len() && p1[g1] == p2[g];
+        let h1 = choose|h1: int| 0 <= h1 < p1.len() && p1[h1] == p2[h];
+        assert(in_grp(v1, g1, s) && in_grp(v1, h1, s));
+        assert(p2[g] == p2[h]);
+        if g != h { assert(p2[g] != p2[h]); }
+    }
+    assert forall|g: int, x: StateID| 0 <= g < v2.len() && #[trigger] v2[g].contains(x) implies x.0 < n by {
+        assert(p2.contains(p2[g])); assert(p1.contains(p2[g]));
+        let g1 = choose|g1: int| 0 <= g1 < p1.len() && p1[g1] == p2[g];
+        assert(v1[g1].contains(x));
+    }
+    assert forall|g: int| 0 <= g < v2.len() implies set_nonempty(#[trigger] v2[g]) by {
+        assert(p2.contains(p2[g])); assert(p1.contains(p2[g]));
+        let g1 = choose|g1: int| 0 <= g1 < p1.len() && p1[g1] == p2[g];
+        assert(set_nonempty(v1[g1]));
+        assert(v2[g] == v1[g1]);
+    }
+}
+pub proof fn lemma_groups_nodup(p1: Seq<BTreeSet<StateID>>, n: int)
+    requires part_ok(pv(p1), n), all_nonempty(pv(p1))
+    ensures p1.no_duplicates()
+{
+    let v1 = pv(p1);
+    assert forall|i: int, j: int| 0 <= i < p1.len() && 0 <= j < p1.len() && i != j implies p1[i] != p1[j] by {
+        if p1[i] == p1[j] {
+            assert(set_nonempty(v1[i]));
+            let x = choose|x: StateID| #[trigger] v1[i].contains(x);
+            assert(StateID(x.0 as int as u32) == x);
+            assert(in_grp(v1, i, x.0 as int) && in_grp(v1, j, x.0 as int));
+        }
+    }
+}
+/// same set of groups: group membership, signatures, stability and homogeneity carry over
+pub proof fn lemma_perm_props(d: CompiledDfa, tm: TMapV, p1: Seq<BTreeSet<StateID>>, p2: Seq<BTreeSet<StateID>>)
+    requires
+        p2.len() == p1.len(),
+        forall|x: BTreeSet<StateID>| #![trigger p2.contains(x)] #![trigger p1.contains(x)] p2.contains(x) <==> p1.contains(x),
+        acc_homog(d, pv(p1)), self_stable(tm, pv(p1)),
+    ensures acc_homog(d, pv(p2)), self_stable(tm, pv(p2))
+{
+    let v1 = pv(p1);
+    let v2 = pv(p2);
+    assert forall|g: int, s1: int, s2: int| #![trigger in_grp(v2, g, s1), in_grp(v2, g, s2)]
+        in_grp(v2, g, s1) && in_grp(v2, g, s2) && d.end_states@[s1].0 implies d.end_states@[s2] == d.end_states@[s1] by {
+        assert(p2.contains(p2[g])); assert(p1.contains(p2[g]));
+        let g1 = choose|g1: int| 0 <= g1 < p1.len() && p1[g1] == p2[g];
+        assert(in_grp(v1, g1, s1) && in_grp(v1, g1, s2));
+    }
+    // sig_tm into "some group" is order independent
+    assert forall|x: StateID, cc: CharClassID, h2: int| 0 <= h2 < v2.len() && #[trigger] sig_tm(tm, v2, x, cc, h2) implies exists|h1: int| 0 <= h1 < v1.len() && v1[h1] == v2[h2] && #[trigger] sig_tm(tm, v1, x, cc, h1) by {
+        assert(p2.contains(p2[h2])); assert(p1.contains(p2[h2]));
+        let h1 = choose|h1: int| 0 <= h1 < p1.len() && p1[h1] == p2[h2];
+        let t = choose|t: StateID| #[trigger] tm_edge(tm, x, cc, t) && in_grp(v2, h2, t.0 as int);
+        assert(in_grp(v1, h1, t.0 as int));
+        assert(v1[h1] == v2[h2] && sig_tm(tm, v1, x, cc, h1));
+    }
+    assert forall|g: int, x: StateID, y: StateID| 0 <= g < v2.len() && #[trigger] v2[g].contains(x) && #[trigger] v2[g].contains(y) implies same_sig(tm, v2, x, y) by {
+        assert(p2.contains(p2[g])); assert(p1.contains(p2[g]));
+        let g1 = choose|g1: int| 0 <= g1 < p1.len() && p1[g1] == p2[g];
+        assert(v1[g1].contains(x) && v1[g1].contains(y));
+        assert(same_sig(tm, v1, x, y));
+        assert forall|cc: CharClassID, h: int| #![trigger sig_tm(tm, v2, x, cc, h)] #![trigger sig_tm(tm, v2, y, cc, h)] 0 <= h < v2.len() implies (sig_tm(tm, v2, x, cc, h) <==> sig_tm(tm, v2, y, cc, h)) by {
+            if sig_tm(tm, v2, x, cc, h) {
+                let h1 = choose|h1: int| 0 <= h1 < v1.len() && v1[h1] == v2[h] && #[trigger] sig_tm(tm, v1, x, cc, h1);
+                assert(sig_tm(tm, v1, y, cc, h1));
+                let t = choose|t: StateID| #[trigger] tm_edge(tm, y, cc, t) && in_grp(v1, h1, t.0 as int);
+                assert(in_grp(v2, h, t.0 as int));
+            }
+            if sig_tm(tm, v2, y, cc, h) {
+                let h1 = choose|h1: int| 0 <= h1 < v1.len() && v1[h1] == v2[h] && #[trigger] sig_tm(tm, v1, y, cc, h1);
+                assert(sig_tm(tm, v1, x, cc, h1));
+                let t = choose|t: StateID| #[trigger] tm_edge(tm, x, cc, t) && in_grp(v1, h1, t.0 as int);
+                assert(in_grp(v2, h, t.0 as int));
+            }
+        }
+    }
+}
+/// what update_transitions must produce, over the transition map
+pub open spec fn q_trans_ok(tm: TMapV, p: PartV, q: CompiledDfa) -> bool {
+    forall|g: int, cc: CharClassID, h: int| 0 <= g < p.len() && 0 <= h <= u32::MAX ==>
+        (#[trigger] q.states@[g].transitions@.contains((cc, StateSetID(h as u32))) <==> exists|x: StateID| #[trigger] p[g].contains(x) && sig_tm(tm, p, x, cc, h))
+}
+
+pub open spec fn seen_upto<'a>(rem: Seq<&'a StateID>, k: int, x: StateID) -> bool { exists|j: int| 0 <= j < k && j < rem.len() && *#[trigger] rem[j] == x }
+pub open spec fn tm_keys(tm: TMapV, n: int) -> bool {
+    &&& forall|s: StateID| #[trigger] tm.contains_key(s) <==> s.0 < n
+    &&& forall|s: StateID, cc: CharClassID, t: StateID| #[trigger] tm_edge(tm, s, cc, t) ==> t.0 < n
+}
+/// the end-state entry of group g after its representative was added
+pub open spec fn rep_end_ok(d: CompiledDfa, p: PartV, es: Seq<(bool, TerminalID)>, g: int) -> bool {
+    &&& forall|x: StateID| #[trigger] p[g].contains(x) && d.end_states@[x.0 as int].0 ==> es[g] == d.end_states@[x.0 as int]
+    &&& (forall|x: StateID| #[trigger] p[g].contains(x) ==> !d.end_states@[x.0 as int].0) ==> es[g] == (false, TerminalID(0))
+}
+pub proof fn lemma_quotient_from_parts(d: CompiledDfa, tm: TMapV, p: PartV, q: CompiledDfa)
+    requires
+        d_wf(d), tm_ok(d, tm), part_ok(p, d.states@.len() as int), in_grp(p, 0, 0), p.len() <= u32::MAX,
+        q.states@.len() == p.len(), q.end_states@.len() == p.len(), q_trans_ok(tm, p, q),
+        forall|g: int| 0 <= g < p.len() ==> rep_end_ok(d, p, q.end_states@, g),
+    ensures quotient_ok(d, p, q)
+{
+    assert forall|g: int, cc: CharClassID, h: int| 0 <= g < p.len() && 0 <= h <= u32::MAX implies
+            (#[trigger] q.states@[g].transitions@.contains((cc, StateSetID(h as u32))) <==> exists|s: int| #[trigger] in_grp(p, g, s) && sig(d, p, s, cc, h)) by {
+        if exists|x: StateID| #[trigger] p[g].contains(x) && sig_tm(tm, p, x, cc, h) {
+            let x = choose|x: StateID| #[trigger] p[g].contains(x) && sig_tm(tm, p, x, cc, h);
+            lemma_sig_tm(d, tm, p, x, cc, h);
+            assert(StateID(x.0 as int as u32) == x);
+            assert(in_grp(p, g, x.0 as int) && sig(d, p, x.0 as int, cc, h));
+        }
+        if exists|s: int| #[trigger] in_grp(p, g, s) && sig(d, p, s, cc, h) {
+            let s = choose|s: int| #[trigger] in_grp(p, g, s) && sig(d, p, s, cc, h);
+            lemma_sig_tm(d, tm, p, StateID(s as u32), cc, h);
+            assert(p[g].contains(StateID(s as u32)) && sig_tm(tm, p, StateID(s as u32), cc, h));
+        }
+    }
+    assert forall|g: int| 0 <= g < p.len() implies #[trigger] q_end_ok(d, p, q, g) by {
+        assert(rep_end_ok(d, p, q.end_states@, g));
+        if q.end_states@[g].0 {
+            if forall|x: StateID| #[trigger] p[g].contains(x) ==> !d.end_states@[x.0 as int].0 { assert(q.end_states@[g] == (false, TerminalID(0))); }
+            let x = choose|x: StateID| #[trigger] p[g].contains(x) && d.end_states@[x.0 as int].0;
+            assert(StateID(x.0 as int as u32) == x);
+            assert(in_grp(p, g, x.0 as int) && d.end_states@[x.0 as int] == q.end_states@[g]);
+        }
+        assert forall|s: int| #[trigger] in_grp(p, g, s) && d.end_states@[s].0 implies q.end_states@[g] == d.end_states@[s] by {
+            assert(p[g].contains(StateID(s as u32)));
+        }
+    }
+}
